@@ -125,21 +125,21 @@ type c16Ret struct {
 }
 
 type c16Gate struct {
-	mu       sync.Mutex
-	cond     *sync.Cond
-	inner    func() ([]byte, gopacket.CaptureInfo, error)
-	tokens   int
-	open     bool
-	waiting  bool
-	entered  int
-	returned int
-	pkts     int
-	inPull   bool // the harness itself is calling NextPacket
-	cancelT  bool // cancel() is about to be called
-	cancelD  bool // cancel() has returned
-	nocopy   bool // current value of ps.DecodeOptions.NoCopy (assigned by the harness only while the producer is quiescent)
+	mu                 sync.Mutex
+	cond               *sync.Cond
+	inner              func() ([]byte, gopacket.CaptureInfo, error)
+	tokens             int
+	open               bool
+	waiting            bool
+	entered            int
+	returned           int
+	pkts               int
+	inPull             bool // the harness itself is calling NextPacket
+	cancelT            bool // cancel() is about to be called
+	cancelD            bool // cancel() has returned
+	nocopy             bool // current value of ps.DecodeOptions.NoCopy (assigned by the harness only while the producer is quiescent)
 	enteredAfterCancel int
-	log      []c16Ret
+	log                []c16Ret
 }
 
 func (g *c16Gate) read() ([]byte, gopacket.CaptureInfo, error) {
@@ -305,10 +305,29 @@ func c16CountPk(h []string) int {
 
 func (c16) Gen(rng *rand.Rand, tier string) []Case {
 	var out []Case
+	nctx := 0
 	add := func(ops ...[]string) {
 		var all []string
 		for _, o := range ops {
 			all = append(all, o...)
+		}
+		// how the context of a cancelling script ends (5th cfg field): 0 cancel(), 1 a context whose Err() is
+		// DeadlineExceeded (as WithTimeout/WithDeadline give), 2 one ending with an arbitrary error
+		cancels := false
+		for _, o := range all {
+			if o == "cancel" || strings.HasPrefix(o, "fcan:") {
+				cancels = true
+			}
+		}
+		if cancels && len(all) > 0 && strings.HasPrefix(all[0], "cfg:") {
+			nctx++
+			if k := nctx % 3; k != 0 {
+				f := strings.Split(all[0], ",")
+				for len(f) < 4 {
+					f = append(f, "0")
+				}
+				all[0] = strings.Join(append(f[:4], strconv.Itoa(k)), ",")
+			}
 		}
 		out = append(out, Case{Prop: "C16", Ops: all})
 	}
@@ -476,6 +495,34 @@ func (c16) Gen(rng *rand.Rand, tier string) []Case {
 	return out
 }
 
+// a context that ends when the harness says so, with an Err() other than context.Canceled
+type c16Ctx struct {
+	mu    sync.Mutex
+	done  chan struct{}
+	ended bool
+	err   error
+}
+
+func (c *c16Ctx) Deadline() (time.Time, bool)   { return time.Time{}, false }
+func (c *c16Ctx) Done() <-chan struct{}         { return c.done }
+func (c *c16Ctx) Value(interface{}) interface{} { return nil }
+func (c *c16Ctx) Err() error {
+	c.mu.Lock()
+	defer c.mu.Unlock()
+	if c.ended {
+		return c.err
+	}
+	return nil
+}
+func (c *c16Ctx) end() {
+	c.mu.Lock()
+	defer c.mu.Unlock()
+	if !c.ended {
+		c.ended = true
+		close(c.done)
+	}
+}
+
 // ---------------------------------------------------------------- run
 type c16Deliv struct {
 	p    gopacket.Packet
@@ -483,30 +530,31 @@ type c16Deliv struct {
 }
 
 type c16Run struct {
-	kind      string
-	nocopy    bool
-	lazy      bool // Lazy / Pool decode options: exercised, the model's observables do not depend on them
-	pool      bool
-	items     [][]c16Item
-	gate      *c16Gate
-	ps        *gopacket.PacketSource
-	ctx       context.Context
-	cancel    context.CancelFunc
-	ch        chan gopacket.Packet
-	baseline  int
-	cancelled bool
-	heldAtCancel int
-	pktsAtCancel int
-	deliv     []c16Deliv
-	nPull     int // packets handed over by NextPacket
-	nChan     int // packets received from the channel
-	closedSeen bool
+	kind          string
+	nocopy        bool
+	lazy          bool // Lazy / Pool decode options: exercised, the model's observables do not depend on them
+	pool          bool
+	items         [][]c16Item
+	gate          *c16Gate
+	ps            *gopacket.PacketSource
+	ctx           context.Context
+	cancel        context.CancelFunc
+	ctxKind       int
+	ch            chan gopacket.Packet
+	baseline      int
+	cancelled     bool
+	heldAtCancel  int
+	pktsAtCancel  int
+	deliv         []c16Deliv
+	nPull         int // packets handed over by NextPacket
+	nChan         int // packets received from the channel
+	closedSeen    bool
 	guardBypassed bool // a PacketsCtx call succeeded on a zero-copy source with NoCopy on
-	finDone   bool
-	fcanDone  bool
-	stuck     bool
-	tags      map[string]bool
-	res       *Result
+	finDone       bool
+	fcanDone      bool
+	stuck         bool
+	tags          map[string]bool
+	res           *Result
 }
 
 func (r *c16Run) gor() int { return runtime.NumGoroutine() - r.baseline }
@@ -762,6 +810,9 @@ func (c16) Run(c Case) Result {
 			r.nocopy = len(a) > 1 && a[1] == "1"
 			r.lazy = len(a) > 2 && a[2] == "1"
 			r.pool = len(a) > 3 && a[3] == "1"
+			if len(a) > 4 {
+				r.ctxKind, _ = strconv.Atoi(a[4])
+			}
 		case "p", "e":
 			if it, ok := c16ParseItem(op); ok {
 				r.items[len(r.items)-1] = append(r.items[len(r.items)-1], it)
@@ -813,6 +864,14 @@ func (c16) Run(c Case) Result {
 		r.ps = gopacket.NewPacketSource(r.gate, c16Decoder, opts...)
 	}
 	r.ctx, r.cancel = context.WithCancel(context.Background())
+	if r.ctxKind != 0 {
+		c := &c16Ctx{done: make(chan struct{}), err: context.DeadlineExceeded}
+		if r.ctxKind == 2 {
+			c.err = errors.New("scripted context end")
+		}
+		r.ctx, r.cancel = c, c.end
+		r.tags["context-ends-not-by-cancel"] = true
+	}
 	r.baseline = runtime.NumGoroutine()
 
 	obs := func(s string) {
